@@ -36,6 +36,7 @@ type Prog struct {
 	nAllFuncs int
 	combs       map[*types.Func]map[int]Comb
 	combMissing []string
+	mayWrite    map[*ssa.Function]map[*types.Var]bool
 }
 
 func shortName(s string) string {
